@@ -89,6 +89,7 @@ def run(ctx):
     from checks import c12_gaps
 
     c12_gaps.run_gaps(ctx)
+    c12_gaps.run_frame_kinds(ctx)
     ctx.cov["rule"] = (
         "deviation-bounded DFS over NetSim (pacing enabled): all schedules with <= d deviations (drop, "
         "duplicate, delay 30 ms / 1.5 s, timers 1 us / 20 ms late) of bidirectional scripts long enough "
@@ -103,6 +104,17 @@ def run(ctx):
 
 
 def replay(ctx, obj):
+    if obj["replay"].get("part") == "frame_kinds":
+        from checks import c12_gaps
+
+        rp = obj["replay"]
+        fr = dict(c12_gaps._kinds(rp["role"]))[rp["label"]]
+        role, label, viol, state = c12_gaps.run_kind((rp["role"], rp["label"], fr))
+        print(role, label, state, viol)
+        if viol:
+            print("VIOLATION property=C12 replay=(replayed): %s" % viol[1])
+            return 1
+        return 0
     if obj["replay"].get("part") == "gaps":
         from checks import c12_gaps
 
